@@ -51,6 +51,7 @@ func (db *DB) Close() error                      { return db.real.Close() }
 func (db *DB) RunValueLogGC(ratio float64) error { return db.real.RunValueLogGC(ratio) }
 
 func (db *DB) View(fn func(txn *Txn) error) error {
+	vsym.Yield("badger.View")
 	vsym.CrashPoint("badger.View")
 	if db.real.IsClosed() {
 		return badger.ErrDBClosed
@@ -62,6 +63,7 @@ func (db *DB) View(fn func(txn *Txn) error) error {
 }
 
 func (db *DB) Update(fn func(txn *Txn) error) error {
+	vsym.Yield("badger.Update")
 	vsym.CrashPoint("badger.Update/begin")
 	if db.real.IsClosed() {
 		return badger.ErrDBClosed
@@ -152,6 +154,7 @@ func (wb *WriteBatch) Set(key, val []byte) error {
 }
 
 func (wb *WriteBatch) Flush() error {
+	vsym.Yield("badger.Flush")
 	vsym.CrashPoint("badger.Flush/begin")
 	if wb.db.real.IsClosed() {
 		return badger.ErrDBClosed
